@@ -178,7 +178,7 @@ def oracle_steps(cases, impl):
             continue
         st, d = mon_of(tr)
         pid_cls = "C06" if info["cls"] == "mixed" else ("C05" if info["cls"] == "multi" or (info["cls"] == "rev" and info["ps"][1] == "revolve") else None)
-        if pid_cls and in_domain(info) and any(o.startswith("r") for o in info["ops"]):
+        if pid_cls and in_domain(info) and any(o[0] in "rlL" for o in info["ops"]):
             # the property speaks about the forward total of a full pass: valid parameters that give no complete pass (an exception at
             # construction or at a request, before the first EndReverse) perform no optimal pass at all
             exc = tr[0] if tr[0].startswith("CTOR EXC") else next((o for k, o, _ in (parse_line(l) for l in tr if l.startswith("N ")) if o.startswith("EXC")), None)
@@ -291,6 +291,13 @@ def oracle_flags(cases, impl):
         # repeated passes are exact repeats (multi-pass classes, stream.* cases run >= 2 passes)
         if multi_pass and cid.startswith("stream."):
             acts = [a for a, _ in actions_of(tr)]
+            # "arbitrarily many": a further calculation that breaks off with an exception is not a repeat of the first
+            outs = [parse_line(l)[1] for l in tr if l.startswith("N ")]
+            if in_domain(info) and "Y:EF" in outs:
+                exc = next((o for o in outs[outs.index("Y:EF"):] if o.startswith("EXC")), None)
+                if exc:
+                    out.append(fail("C09", info, line, "adjoint calculation %d breaks off with %s: this class permits arbitrarily many calculations, each a repeat of the first"
+                                    % (acts[acts.index("EF"):].count("ER") + 1 if "EF" in acts else 1, exc), "pass_breaks_off"))
             if "EF" in acts:
                 rest = acts[acts.index("EF") + 1:]
                 passes, cur = [], []
@@ -336,7 +343,7 @@ def oracle_finalize(cases, impl):
         expect_ef = False
         for op, l in zip(info["ops"], lines):
             k, o, d = parse_line(l)
-            if op[0] == "f":
+            if op[0] in "fg":
                 kk = int(op[1:])
                 n0, m0 = int(state["n"]), state["m"]
                 if kk < 1:
@@ -618,11 +625,18 @@ def oracle_passes(cases, impl):
         else:
             # a stream of valid parameters that breaks off with an exception: the forward never reaches EndForward, or an adjoint
             # calculation stops above step 0 -- steps that are never reversed
-            if in_domain(info) and any(o.startswith("r") for o in info["ops"]):
+            if in_domain(info) and any(o[0] in "rlL" for o in info["ops"]):
                 exc = next(((i, o) for i, (k, o, _) in enumerate(parse_line(l) for l in tr if l.startswith("N ")) if o.startswith("EXC")), None)
                 if exc is not None:
                     where = "before EndForward" if not seen_ef else ("in adjoint calculation %d with the adjoint at step %s: steps below it are never reversed" % (npass + 1, pos))
                     out.append(fail("C02", info, line, "%s %s (request %d)" % (exc[1], where, exc[0]), "broken_off"))
+                elif any(parse_line(l)[1] == "STOP" for l in tr if l.startswith("N ")):
+                    # ... or that simply stops (StopIteration) before EndForward, in the middle of an adjoint calculation, or after
+                    # EndForward without the adjoint calculation every class but NoneCheckpointSchedule permits
+                    if not seen_ef:
+                        out.append(fail("C02", info, line, "StopIteration before EndForward: the forward calculation is never concluded", "stopped_short"))
+                    elif pos not in (N, 0) or (npass == 0 and info["cls"] != "none"):
+                        out.append(fail("C02", info, line, "StopIteration with the adjoint at step %s in adjoint calculation %d: steps below it are never reversed" % (pos, npass + 1), "stopped_short"))
     return out
 
 
@@ -858,7 +872,7 @@ def oracle_twolevel(cases, impl):
         bad = None
         # an adjoint pass of valid parameters that breaks off with an exception recomputes no block (or not all of them) at all
         exc = next((o for k, o, _ in (parse_line(l) for l in tr if l.startswith("N ")) if o.startswith("EXC")), None)
-        if exc and in_domain(info) and any(o.startswith("r") or o.startswith("l") for o in info["ops"]):
+        if exc and in_domain(info) and any(o[0] in "rlL" for o in info["ops"]):
             out.append(fail("C13", info, line, "pass %d breaks off with %s after %d action(s): its period blocks are not recomputed" % (len(passes) + 1, exc, len(cur)), "broken_off"))
             continue
         for pi, ps in enumerate(passes):
